@@ -102,9 +102,11 @@ def plane_oracle(R, C, n):
             back = f3(C.FP_SDR(np.matrix(nvec).T, np.matrix(uvec).T))
             if not in_range(*back):
                 bad = bad or dict(rec, check='angle-range', got=back)
-            if d > 0:
-                ok = angles_close(back, (s, d, r)) if interior(s, d, r) else same_frame(frame_of(*back), fr)
-                if not ok:
+            ok = angles_close(back, (s, d, r)) if interior(s, d, r) else same_frame(frame_of(*back), fr)
+            if not ok:
+                if d == 0.0 and any(f['key'] == conv.HORIZONTAL_KEY for f in R.findings):
+                    R.horizontal.append([s, d, r])      # recorded finding, reported once by run()
+                else:
                     bad = bad or dict(rec, check='normal-slip-to-angles', got=back)
             # axes -> angles: one of the two nodal planes
             back2 = f3(C.TNP_SDR(T, N, P))
@@ -195,6 +197,7 @@ def results_oracle(R, C, n):
 
 def run(R):
     C = conv.impl()
+    R.horizontal = []
     proved = R.prove()
     R.assumptions += ['axes alone do not distinguish the two nodal planes: "back to the original angles" from axes is checked up to '
                       'that ambiguity, from the (normal, slip) pair it is exact; a horizontal plane (dip 0) has no strike and is '
@@ -209,6 +212,8 @@ def run(R):
         if bad:
             R.violation('nodal-plane / axes property fails (%s)' % bad['check'], bad)
             break
+    for rec in R.horizontal[:1]:
+        R.known_finding(conv.HORIZONTAL_KEY, conv.HORIZONTAL_WHAT + '; e.g. (strike, dip, rake) = %r' % (rec,))
     R.cov['rule'] = ('strike/dip/rake classes: generic, vertical, (near-)horizontal, pure strike-slip incl. rake = +-pi, pure dip-slip, '
                      'strike at the 0/2pi wrap, nodal planes with close strikes, rounded values; scalar and array call forms; results: '
                      'random double-couples and full tensors')
